@@ -2,13 +2,9 @@ import Mathlib.Tactic.FieldSimp
 import Mathlib.Tactic.Ring
 import Mathlib.Tactic.Linarith
 import Mathlib.Algebra.Order.Field.Rat
+import AmrK.PointModel
 /-! Probe: point-to-index conversion of `LevelDataSelector.__call__` (C19). -/
 namespace Point
-
-/-- repaired: `((point - origin) / dx) - 0.5` -/
-def pointIdxR (g dx p : Rat) : Rat := (p - g) / dx - 1/2
-/-- pinned: `(point / dx) - 0.5` -/
-def pointIdxP (dx p : Rat) : Rat := p / dx - 1/2
 
 /-- the centre of cell `i` (global index) maps to `i`, for any origin and cell size -/
 theorem pointIdxR_centre (g dx : Rat) (i : Int) (hdx : dx ≠ 0) :
